@@ -486,6 +486,16 @@ func (c *Conn) loadSession(hello *clientHelloMsg) (
 			return nil, nil, nil, nil
 		}
 
+		// [UTLS SECTION START]
+		// A ClientSessionCache may be shared by connections whose ClientHelloSpecs
+		// differ in extended_master_secret (e.g. randomized fingerprints). A session
+		// negotiated with the extension must not be offered by a ClientHello without
+		// it: RFC 7627, Section 5.3 requires the server to abort such a handshake.
+		if session.extMasterSecret && !c.utlsHelloOffersEMS(hello) {
+			return nil, nil, nil, nil
+		}
+		// [UTLS SECTION END]
+
 		hello.sessionTicket = session.ticket
 		return
 	}
